@@ -259,7 +259,7 @@ def run_unit(unit):
 def plan(tier, seed=0):
     units = []
     depth = 3 if tier == 'thorough' else 2
-    cap = 1500 if tier == 'thorough' else 200
+    cap = 400 if tier == 'thorough' else 200
     modes = ['checking', 'default', 'pretty', 'wrap']
     for name, text in seeds.seeds(tier, seed):
         # larger inputs have more proposals per state: scale the state cap
